@@ -246,7 +246,31 @@ class DomainModel(Opaque):
 from pyvc.values import SymStream
 
 
-def variable_harness(role):
+def condition_parent_kinds():
+    """a condition sits below ANY logical operator (and_/or_ forms, not_, the rule selectors): one harness per concrete class,
+    read off the real class hierarchy on every run"""
+    from pyvc.framework import get_loader
+    from pyvc.vm import VM
+    from pyvc.ctx import Ctx, Stats
+    loader = get_loader()
+    vm = VM(loader, Ctx([], Stats()), Spec())
+    LO = loader.cls(SYM, "LogicalOperator")
+    QC = loader.cls(SYM, "QuantifiedConditional")
+    names = []
+    for modname in (SYM, "krrood.entity_query_language.conclusion_selector"):
+        m = loader.module(modname)
+        for c in m.classes.values():
+            if vm.is_subclass(c, LO) is True and vm.is_subclass(c, QC) is not True and c is not LO and c.name not in ("LogicalBinaryOperator", "OR", "ConclusionSelector") and c.name not in names:
+                names.append(c.name)
+    return sorted(names)
+
+
+def condition_parent(vm, name):
+    mod = SYM if name in vm.loader.module(SYM).classes else "krrood.entity_query_language.conclusion_selector"
+    return vm.alloc(vm.loader.cls(mod, name), {"_id_": 10}, tag="parent-" + name)
+
+
+def variable_harness(role, below="AND"):
     prefix = f"Variable._evaluate__[{role}]"
 
     def run(vm):
@@ -254,8 +278,7 @@ def variable_harness(role):
         world = EqlWorld(vm)
         world.known_ids.add(20)
         dom = DomainModel(world)
-        parent_cls = "Comparator" if role == "operand" else "AND"
-        parent = vm.alloc(vm.loader.cls(SYM, parent_cls), {"_id_": 10}, tag="parent")
+        parent = vm.alloc(vm.loader.cls(SYM, "Comparator"), {"_id_": 10}, tag="parent") if role == "operand" else condition_parent(vm, below)
         other_root = vm.alloc(vm.loader.cls(SYM, "SymbolicExpression"), {"_id_": 1}, tag="conditions-root")
         node = vm.alloc(vm.loader.cls(SYM, "Variable"), {"_id_": 20, "_domain_": dom, "_is_false_": False, "_eval_parent_": None,
                                                         "_conditions_root_": other_root, "_should_be_instantiated_": False}, tag="Variable")
@@ -278,11 +301,11 @@ def variable_harness(role):
 
     def tau_hyps(world, t):
         return [z3.Or(bound(world.sigma0, vid(20)), DOM(tval(t, vid(20))))]       # totals assign every variable an element of its domain
-    return Harness(f"value-Variable[{role}]", run, spec=Spec(), covers=["yielded"], finalize=finish(prefix, True, tau_hyps),
+    return Harness(f"value-Variable[{role}]" if role == "operand" else f"value-Variable[{role}<{below}]", run, spec=Spec(), covers=["yielded"], finalize=finish(prefix, True, tau_hyps),
                    timeout_ms=3000, retry_unknown=False, ematching_only=True)
 
 
-def attribute_harness(role):
+def attribute_harness(role, below="Not"):
     prefix = f"Attribute._evaluate__[{role}]"
 
     def run(vm):
@@ -291,8 +314,7 @@ def attribute_harness(role):
         child = world.child("child", 21, kind="operand")
         world.known_ids |= {22}
         fa = world.attr_fn("a")
-        parent_cls = "Comparator" if role == "operand" else "Not"
-        parent = vm.alloc(vm.loader.cls(SYM, parent_cls), {"_id_": 10}, tag="parent")
+        parent = vm.alloc(vm.loader.cls(SYM, "Comparator"), {"_id_": 10}, tag="parent") if role == "operand" else condition_parent(vm, below)
         other_root = vm.alloc(vm.loader.cls(SYM, "SymbolicExpression"), {"_id_": 1}, tag="conditions-root")
         node = vm.alloc(vm.loader.cls(SYM, "Attribute"), {"_child_": child, "_attr_name_": "a", "_owner_class_": None, "_id_": 22, "_is_false_": False,
                                                          "_eval_parent_": None, "_conditions_root_": other_root}, tag="Attribute")
@@ -315,7 +337,7 @@ def attribute_harness(role):
 
     def tau_hyps(world, t):
         return [tval(t, vid(22)) == world.attr_fn("a")(world.children["child"].val(t))]
-    return Harness(f"value-Attribute[{role}]", run, spec=Spec(), covers=["yielded"], finalize=finish(prefix, True, tau_hyps),
+    return Harness(f"value-Attribute[{role}]" if role == "operand" else f"value-Attribute[{role}<{below}]", run, spec=Spec(), covers=["yielded"], finalize=finish(prefix, True, tau_hyps),
                    timeout_ms=3000, retry_unknown=False, ematching_only=True)
 
 
@@ -492,7 +514,8 @@ _stage_a = harnesses
 
 
 def harnesses():
-    return _stage_a()[:-1] + [comparator_harness("generic"), comparator_harness("eq"), variable_harness("operand"), variable_harness("condition"),
-                              attribute_harness("operand"), attribute_harness("condition"), frame_domain_mapping(),
+    return _stage_a()[:-1] + [comparator_harness("generic"), comparator_harness("eq"), variable_harness("operand"), attribute_harness("operand")] + \
+        [variable_harness("condition", k) for k in condition_parent_kinds()] + [attribute_harness("condition", k) for k in condition_parent_kinds()] + \
+        [frame_domain_mapping(),
                               descriptor_harness(1), descriptor_harness(2), descriptor_no_condition(), process_result_harness(),
                               optimize_or_harness(), invert_harness(), h_canary()]
